@@ -272,7 +272,8 @@ def rule_fl1(ctx: Ctx) -> RuleResult:
         return t[0] == "sub" and t[1] == ("attr", SELF, "values") and t[2][0] == "sub" and t[2][1] == KEY and t[2][2] == ("const", 0)
     ok = True
     seen = False
-    for p in ctx.fn_paths(m, fn, max_iter=1):
+    from .ms import _contract_paths as _cp
+    for p in _cp(ctx, m, fn, max_iter=1):
         ys = [e for e in p.trace if e.k == "yield"]
         loops = [e for e in p.trace if e.k == "loopiter"]
         for y in ys:
@@ -290,7 +291,8 @@ def rule_fl1(ctx: Ctx) -> RuleResult:
                                       "iterate_map must yield the keys of the parent's dict in its own (insertion) order"))
     m2, fn2 = ctx.function("rxsci/state/memory_store.py", "MemoryStore.add_key")
     fresh = False
-    for p in ctx.fn_paths(m2, fn2, max_iter=1):
+    from .ms import _contract_paths
+    for p in _contract_paths(ctx, m2, fn2, max_iter=1):
         dec = [e for e in p.trace if e.k == "decision" and any(x == ("attr", SELF, "is_mapper") for x in subterms(e.test))]
         if dec and dec[0].outcome and dec[0].test == ("attr", SELF, "is_mapper"):
             ws = [e for e in p.trace if e.k == "substore" and e.base == ("attr", SELF, "values")]
